@@ -10,7 +10,7 @@ pub fn def() -> PropDef {
     PropDef {
         id: "C02",
         level: "exploration",
-        profiles: &["checked"],
+        profiles: &["checked", "fast"],
         abort_is_violation: false,
         rule: "proptest-generated operation histories (request, request_byte(_at_offset), request_more, \
                advance, advance_with_buf, advance_unchecked, set_mark, set_mark_to_position, set_chunk_size, \
